@@ -15,7 +15,7 @@ RULE = (
 )
 BOUNDS = {
     "quick": "all ordered writer pairs x {no filter, filter first, filter last} x 20 files x window *; pairs x 6 files x windows {1*, 1-2}; filtered pairs x 3 files under return-mode no-matches",
-    "thorough": "pairs x 3 filters x 3 positions x all 259 files of <=3 records x 3 windows; triples over a 12-writer subset x 20 files",
+    "thorough": "pairs x (no filter, 3 filters first, 2 filters last, 1 filter between) x all 259 files of <=3 records x 3 windows; triples over a 12-writer subset x 20 files",
 }
 CHUNK = 60
 BUDGET = {"quick": 700, "thorough": 3400}
@@ -125,10 +125,11 @@ def programs(tier):
         base = [WRITERS[a], WRITERS[b]]
         yield base
         fl = FILTERS[:1] if tier == "quick" else FILTERS
-        for f in fl:
+        for fi, f in enumerate(fl):
             yield [f] + base
-            yield base + [f]
-            if tier == "thorough":
+            if fi < 2 or tier == "quick":
+                yield base + [f]
+            if tier == "thorough" and fi == 0:
                 yield [base[0], f, base[1]]
 
 
